@@ -142,7 +142,7 @@ def h_piecewise(ctx, fname, nmax):
 
 def units(tier, seed):
     out = []
-    nmax = 5 if tier == 'quick' else 9
+    nmax = 5 if tier == 'quick' else 12
     opts = {'property': PROP, 'float_tol': 1e-5}
 
     def add(name, func, **kw):
@@ -165,7 +165,8 @@ def units(tier, seed):
         add('polygamma(m=%d)/n<=%d' % (m, nmax), 'h_chain', fname='polygamma', nmax=nmax, params={'m': m})
     for a, b in ([('3/2', '1/2'), ('1', '3'), ('-1/2', '3/2')] if tier == 'quick' else
                  [('3/2', '1/2'), ('1', '3'), ('-1/2', '3/2'), ('2', '2'), ('-5/2', '1/2'), ('1/2', '5/2')]):
-        add('hyperu(%s,%s)/n<=%d' % (a, b, nmax), 'h_chain', fname='hyperu', nmax=nmax, params={'a': a, 'b': b})
+        hn = min(nmax, 9)     # scipy.special.hyperu returns nan for large parameters (a+n >= 13): floating-point range, outside the claim
+        add('hyperu(%s,%s)/n<=%d' % (a, b, hn), 'h_chain', fname='hyperu', nmax=hn, params={'a': a, 'b': b})
     for fname in ('rint', 'fix', 'floor', 'ceil', 'trunc', 'sign', 'clip', 'absolute'):
         add('%s/piecewise/n<=3' % fname, 'h_piecewise', fname=fname, nmax=3)
     return out
